@@ -60,7 +60,7 @@ Print Assumptions C20_existing_account_reused.
     completely stored account is modified only by deleteAccountLocally, run under the
     registration lock by a thread of that very CA (the directory in use — the defect fixed by
     f80e244 is excluded) to which the CA answered accountDoesNotExist for exactly the account
-    that is stored (the defects fixed by 6e1a233 and f8c5e31 are excluded), and which the CA has
+    that is stored (the defects fixed by 6e1a233 and f0aaa6b are excluded), and which the CA has
     indeed forgotten. *)
 Theorem C20_replaced_only_if_ca_says_gone : forall s l s1 c a,
   reachable s -> step s l = Some s1 ->
@@ -71,7 +71,7 @@ Proof. exact replaced_only_if_ca_says_gone. Qed.
 Print Assumptions C20_replaced_only_if_ca_says_gone.
 
 (** ... in particular an account the CA still knows is never deleted or overwritten, whatever
-    the interleaving (this was refuted by a two-issuance witness before f8c5e31) *)
+    the interleaving (this was refuted by a two-issuance witness before f0aaa6b) *)
 Corollary C20_live_account_never_replaced : forall s l s1 c a,
   reachable s -> step s l = Some s1 ->
   slots s c = Slot (Some a) (Some a) -> live s c a = true -> slots s1 c = slots s c.
